@@ -175,3 +175,41 @@ hrx!(rx_windows_as923_3, 2, 74);
 //@h id=rx_windows_as923_4 props=C10 tier=thorough build=dev-as923 cost=90 timeout=1500
 //@bounds AS923-4
 hrx!(rx_windows_as923_4, 3, 74);
+
+//@h id=rxc_not_joined props=C07,C11 tier=quick build=dev-eu868 cost=20 timeout=600
+//@bounds Mac::handle_rxc on a device that is joining (arbitrary credentials) or unjoined, arbitrary frame bytes 0..=32: refused with NotJoined, the device state unchanged (this is the contract async_join_class_c uses)
+//@encodes Mac::handle_rxc
+#[cfg(feature = "class-c")]
+#[kani::proof]
+#[kani::unwind(34)]
+fn rxc_not_joined() {
+    crate::mac::verif_kani_lorawan_device_mac_common::vinit();
+    let mut mac = Mac::new(region::Configuration::new(rt::region_ut(0)), kani::any(), kani::any());
+    let joining: bool = kani::any();
+    if joining {
+        let creds = NetworkCredentials::new(
+            crate::AppEui::from(kani::any::<[u8; 8]>()),
+            crate::DevEui::from(kani::any::<[u8; 8]>()),
+            crate::AppKey::from(kani::any::<[u8; 16]>()),
+        );
+        mac.state = State::Otaa(otaa::Otaa::new(creds));
+    }
+    let mut buf = RadioBuffer::<64>::new();
+    let n: usize = kani::any();
+    kani::assume(n <= 32);
+    let bytes: [u8; 32] = kani::any();
+    buf.as_mut()[..32].copy_from_slice(&bytes);
+    buf.set_pos(n);
+    let mut dl: Vec<Downlink, 1> = Vec::new();
+    let rf = RfConfig {
+        frequency: kani::any(),
+        bb: lora_modulation::BaseBandModulationParams::new(
+            lora_modulation::SpreadingFactor::_7, lora_modulation::Bandwidth::_125KHz, lora_modulation::CodingRate::_4_5),
+        max_payload_len: kani::any(),
+    };
+    let r = mac.handle_rxc::<64, 1>(&mut buf, &mut dl, kani::any(), &rf);
+    crate::vcheck!(matches!(r, Err(Error::NotJoined)), "C07: a frame heard by a device without a session is refused");
+    crate::vcheck!(matches!((&mac.state, joining), (State::Otaa(_), true) | (State::Unjoined, false)) && dl.is_empty(),
+        "C07: a frame heard by a device without a session changes nothing");
+    kani::cover!(joining && n == 17, "joining, 17-byte frame");
+}
